@@ -13,6 +13,7 @@
 # limitations under the License.
 """Efficient Walsh-Hadamard transform in JAX."""
 
+import functools
 import math
 from typing import Tuple, Union
 
@@ -22,7 +23,7 @@ import scipy
 from fedjax.core.typing import PRNGKey, Params
 
 
-@jax.jit
+@functools.partial(jax.jit, static_argnames=('small_n', 'precision'))
 def walsh_hadamard_transform(
     x: jnp.ndarray,
     small_n: int = 2**7,
